@@ -146,6 +146,11 @@ def gen_cases(tier, rng):
                                                      "reserve 0 %d" % huge, "clone 0 2", "reserve 2 %d" % huge, "drop 0"]), "cap-overflow"))
                     cases.append((C11.mk(fmt, atom, ["withcap 0 %d" % huge, "from 1 " + body, "withcap 1 %d" % huge, "pushs 1 61"]), "cap-overflow"))
     cases += thread_cases(400 if tier == "quick" else 20000, rng)
+    # the last two references to one Atomic buffer dropped by two threads at the same moment (spin rendezvous, delay
+    # sweep), many rounds: no block may stay live, none may be freed twice
+    for fmt in ("bytes", "utf8"):
+        for k in range(4 if tier == "quick" else 40):
+            cases.append(("tendril\t%s\tT\tR=%d" % (fmt, 200000 + k), "race"))
     n = 3000 if tier == "quick" else 300000
     for k in range(n):
         fmt = C11.FORMATS[k % 5]
@@ -237,6 +242,12 @@ def oracle(line, out):
         return C11.api2_ledger_oracle(line, out)
     if out is None or out.startswith("PANIC") or out.startswith("ABORT"):
         return "implementation crashed: %s" % out
+    if line.split("\t")[2] == "T" and line.split("\t")[3].startswith("R="):
+        want = "race|rounds=%s|live=0" % line.split("\t")[3][2:]
+        if out != want:
+            return ("concurrent drops of the last two references to one buffer: %s (expected %s: every buffer freed exactly "
+                    "once)" % (out, want))
+        return None
     if line.split("\t")[2] == "T":
         want = thread_reference(line)
         if out != want:
@@ -257,7 +268,7 @@ def nontrivial(line, out):
         return False
     if line.startswith("tendril2\t"):
         return C11.nontrivial(line, out)
-    return out.startswith("thr|") or "|A" in out
+    return out.startswith(("thr|", "race|")) or "|A" in out
 
 
 def neighbourhood(line):
